@@ -5,8 +5,10 @@
 
 #include <etl/_cstddef/size_t.hpp>
 #include <etl/_tuple/forward_as_tuple.hpp>
+#include <etl/_tuple/tuple_element.hpp>
 #include <etl/_tuple/tuple_like.hpp>
 #include <etl/_tuple/tuple_size.hpp>
+#include <etl/_type_traits/remove_cvref.hpp>
 #include <etl/_type_traits/remove_reference.hpp>
 #include <etl/_utility/forward.hpp>
 #include <etl/_utility/index_sequence.hpp>
@@ -15,7 +17,37 @@ namespace etl {
 
 namespace detail {
 
-inline constexpr struct tuple_cat {
+template <typename... Ts>
+struct tuple_cat_types { };
+
+template <typename Acc, typename T, typename Is>
+struct tuple_cat_append;
+
+template <typename... Ts, typename T, etl::size_t... I>
+struct tuple_cat_append<tuple_cat_types<Ts...>, T, etl::index_sequence<I...>> {
+    using type = tuple_cat_types<Ts..., etl::tuple_element_t<I, T>...>;
+};
+
+/// The result holds the element types exactly as declared (references and const are kept).
+template <typename Acc, typename... Tuples>
+struct tuple_cat_result;
+
+template <typename... Ts>
+struct tuple_cat_result<tuple_cat_types<Ts...>> {
+    using type = etl::tuple<Ts...>;
+};
+
+template <typename Acc, typename Head, typename... Tail>
+struct tuple_cat_result<Acc, Head, Tail...>
+    : tuple_cat_result<
+          typename tuple_cat_append<
+              Acc,
+              etl::remove_cvref_t<Head>,
+              etl::make_index_sequence<etl::tuple_size_v<etl::remove_cvref_t<Head>>>>::type,
+          Tail...> { };
+
+template <typename R>
+struct tuple_cat_fn {
     template <etl::tuple_like T1, etl::tuple_like T2, etl::size_t... I1, etl::size_t... I2>
     [[nodiscard]] constexpr auto
     concat(T1&& t1, T2&& t2, etl::index_sequence<I1...> /*i1*/, etl::index_sequence<I2...> /*i2*/) const
@@ -25,16 +57,16 @@ inline constexpr struct tuple_cat {
     }
 
     template <etl::tuple_like Result>
-    [[nodiscard]] constexpr auto operator()(Result&& result) const
+    [[nodiscard]] constexpr auto operator()(Result&& result) const -> R
     {
-        return [&]<etl::size_t... Is>(etl::index_sequence<Is...> /*is*/) {
+        return [&]<etl::size_t... Is>(etl::index_sequence<Is...> /*is*/) -> R {
             using etl::get;
-            return etl::tuple{get<Is>(etl::forward<Result>(result))...};
+            return R(get<Is>(etl::forward<Result>(result))...);
         }(etl::make_index_sequence<etl::tuple_size_v<etl::remove_reference_t<Result>>>{});
     }
 
     template <etl::tuple_like Result, etl::tuple_like Head, etl::tuple_like... Tail>
-    [[nodiscard]] constexpr auto operator()(Result&& result, Head&& head, Tail&&... tail) const
+    [[nodiscard]] constexpr auto operator()(Result&& result, Head&& head, Tail&&... tail) const -> R
     {
         constexpr auto idx1 = etl::make_index_sequence<etl::tuple_size_v<etl::remove_reference_t<Result>>>{};
         constexpr auto idx2 = etl::make_index_sequence<etl::tuple_size_v<etl::remove_reference_t<Head>>>{};
@@ -43,14 +75,16 @@ inline constexpr struct tuple_cat {
             etl::forward<Tail>(tail)...
         );
     }
-} tuple_cat;
+};
 
 } // namespace detail
 
 template <etl::tuple_like... Tuples>
+    requires(sizeof...(Tuples) > 0)
 [[nodiscard]] constexpr auto tuple_cat(Tuples&&... ts)
 {
-    return etl::detail::tuple_cat(etl::forward<Tuples>(ts)...);
+    using result_t = typename etl::detail::tuple_cat_result<etl::detail::tuple_cat_types<>, Tuples...>::type;
+    return etl::detail::tuple_cat_fn<result_t>{}(etl::forward<Tuples>(ts)...);
 }
 
 } // namespace etl
